@@ -19,6 +19,7 @@ import (
 	"time"
 
 	"verif/checks"
+	"verif/env"
 	"verif/rep"
 )
 
@@ -105,6 +106,13 @@ func worker(c *checks.Check, tier string, seed int64, shard, n int, out string) 
 		defer func() {
 			if e := recover(); e != nil {
 				st := string(debug.Stack())
+				if ra, ok := e.(env.Runaway); ok {
+					// the environment's transmission cap fired inside a call the check
+					// did not guard: a retry loop of the library that does not end
+					r.Cap("shard %d stopped at a retry loop that does not end", shard)
+					r.Violate(c.ID+"/retry-loop-does-not-end", "the library kept transmitting although every request was answered: "+ra.What, "runaway", map[string]string{"stack": st}, nil)
+					return
+				}
 				if site, ok := checks.LibraryPanic(st); ok {
 					// a panic raised by the library through a call the check did not
 					// guard: still the library's panic, reported as such (the shard's
